@@ -1350,6 +1350,52 @@ class windows_numpy:
 # ---------------------------------------------------------------------------
 # C17: chunk unification
 # ---------------------------------------------------------------------------
+@contract("dask_array/_expr.py::unify_chunks_expr", spec="same-operand-two-labels", props=["C17"])
+class unify_chunks_same_operand:
+    """one array passed twice to a blockwise / contraction call under different index labels (a @ a, einsum('ij,jk'),
+    blockwise(f, 'ik', a, 'ij', a, 'jk')): every returned operand has the common layout of *its own* labels, and the
+    product computes NumPy's values"""
+    bounded_only = True
+    params = {"rows": "const", "cols": "const", "policy": "const"}
+    scope = "square 6x6 arrays whose row and column layouts differ (all pairs of 7 layouts), policies auto/refine/coarse"
+
+    def real():
+        from dask_array._expr import unify_chunks_expr
+        return unify_chunks_expr
+
+    def call(fn, rows, cols, policy):
+        import warnings
+        import numpy as np
+        import dask
+        import dask_array as da
+        d = np.arange(36.0).reshape(6, 6) % 7
+        a = da.from_array(d, chunks=(rows, cols))
+        with dask.config.set({"array.unify-chunks-policy": policy}):
+            with warnings.catch_warnings():
+                warnings.simplefilter("ignore")
+                chunkss, arrays, changed = fn(a.expr, ("i", "j"), a.expr, ("j", "k"), warn=False)
+                got = np.asarray((a @ a).compute())
+                e = np.asarray(da.einsum("ij,jk->ik", a, a).compute())
+        return [x.chunks for x in arrays], dict(chunkss), got, e, d @ d
+
+    def requires(rows, cols, policy):
+        return True
+
+    def ensures(result, rows, cols, policy):
+        (c0, c1), chunkss, got, e, want = result
+        per_label = (tuple(c0[0]) == tuple(chunkss["i"]) and tuple(c0[1]) == tuple(chunkss["j"])
+                     and tuple(c1[0]) == tuple(chunkss["j"]) and tuple(c1[1]) == tuple(chunkss["k"]))
+        return {"each-occurrence-has-the-layout-of-its-own-labels": per_label,
+                "matmul-values": _same(got, want), "einsum-values": _same(e, want)}
+
+    def domain(tier, rng):
+        ls = [(6,), (3, 3), (2, 4), (4, 2), (1, 5), (2, 2, 2), (1, 2, 3)]
+        for pol in ("auto", "refine", "coarse"):
+            for r in ls:
+                for c in ls:
+                    yield {"rows": r, "cols": c, "policy": pol}
+
+
 @contract("dask_array/_expr.py::unify_chunks_expr", spec="pairs", props=["C17"])
 class unify_chunks_pairs:
     """operands with different chunkings are brought to one common layout per index (broadcast axes excepted); under
@@ -1428,7 +1474,7 @@ class unify_chunks_pairs:
     def domain(tier, rng):
         l1 = [(12,), (6, 6), (4, 4, 4), (3, 9), (9, 3), (1, 11), (2, 2, 8), (8, 2, 2), (1, 5, 6)]
         l2 = [(6,), (3, 3), (1, 5), (5, 1), (2, 4), (1, 1, 4)]
-        limits = [16, 48, 64, 1 << 20]
+        limits = [0, 16, 48, 64, 1 << 20]
         for pol in ("auto", "refine", "coarse"):
             for lim in limits:
                 for a in l1:
